@@ -1,11 +1,6 @@
-(* C02 -- InversionMethod + StatesManager: for every reachable state of the machine (any sequence of earlier
-   draws, any _max_storage >= 1, including sequences that overflow the storage) the state returned for u is
-   the one the sequential search over the enumeration returns; and that search is the step function whose
-   right-closed consecutive intervals have lengths prob (proj i), i = 0 .. F.
-   Hypothesis of this file: every index 0 .. F is admissible (1-d chains: Boundary() never excludes a state and
-   PairingToZ1d enumerates exactly the grid, C14). *)
+(* C02 -- bisect.bisect_left on a sorted list (used by the inversion proofs, Proofs/C02_InversionAdm.v). *)
 From Coq Require Import List Arith ZArith QArith Bool Lia Lqa.
-From RV Require Import Base.QB Model.StepLaw Model.Huffman Model.Inversion Proofs.C02_StepLaw.
+From RV Require Import Base.QB Model.StepLaw Model.Huffman Proofs.C02_StepLaw.
 Import ListNotations.
 Open Scope Q_scope.
 
@@ -49,304 +44,3 @@ Section Bisect.
   Qed.
 End Bisect.
 
-Section InversionAllInside.
-  Context {S : Type}.
-  Variable proj : Z -> S.
-  Variable inside : S -> bool.
-  Variable Fn : nat.                       (* F = max_frontier_indices *)
-  Variable prob : S -> Q.
-  Variable M : Z.
-  Let F : Z := Z.of_nat Fn.
-  Hypothesis all_inside : forall i, (0 <= i <= F)%Z -> inside (proj i) = true.
-  Hypothesis prob_nonneg : forall s, 0 <= prob s.
-  Hypothesis storage_pos : (1 <= M)%Z.
-
-  Definition P (i : nat) : Q := prob (proj (Z.of_nat i)).
-
-  (* cumulative sums exactly as the code forms them: c_1 = p_0, c_(n+1) = c_n + p_n *)
-  Fixpoint csum (n : nat) : Q :=
-    match n with
-    | O => 0
-    | Datatypes.S m => match m with O => P 0 | Datatypes.S _ => csum m + P m end
-    end.
-
-  Lemma csum_S n : csum (Datatypes.S n) == csum n + P n.
-  Proof. destruct n; simpl; ring. Qed.
-
-  Lemma csum_mono i j : (i <= j)%nat -> csum i <= csum j.
-  Proof.
-    induction 1 as [|j _ IH]; [lra|]. rewrite csum_S. pose proof (prob_nonneg (proj (Z.of_nat j))). unfold P. lra.
-  Qed.
-
-  Definition cums (n : nat) : list Q := map (fun j => csum (Datatypes.S j)) (seq 0 n).
-  Definition sts (n : nat) : list S := map (fun j => proj (Z.of_nat j)) (seq 0 n).
-
-  Lemma cums_length n : length (cums n) = n. Proof. unfold cums. rewrite map_length, seq_length. reflexivity. Qed.
-  Lemma sts_length n : length (sts n) = n. Proof. unfold sts. rewrite map_length, seq_length. reflexivity. Qed.
-  Lemma cums_S n : cums (Datatypes.S n) = cums n ++ [csum (Datatypes.S n)].
-  Proof. unfold cums. rewrite seq_S, map_app. reflexivity. Qed.
-  Lemma sts_S n : sts (Datatypes.S n) = sts n ++ [proj (Z.of_nat n)].
-  Proof. unfold sts. rewrite seq_S, map_app. reflexivity. Qed.
-  Lemma cums_nth n i : (i < n)%nat -> nth i (cums n) 0 = csum (Datatypes.S i).
-  Proof.
-    intro H. unfold cums.
-    transitivity (nth i (map (fun j => csum (Datatypes.S j)) (seq 0 n)) ((fun j => csum (Datatypes.S j)) 0%nat)).
-    - apply nth_indep. rewrite map_length, seq_length. lia.
-    - rewrite (map_nth (fun j => csum (Datatypes.S j))). rewrite seq_nth by lia. reflexivity.
-  Qed.
-  Lemma cums_last n : (1 <= n)%nat -> last (cums n) 0 = csum n.
-  Proof. destruct n as [|n]; [lia|]. intros _. rewrite cums_S. apply last_last. Qed.
-  Lemma sts_nth_error n i : (i < n)%nat -> nth_error (sts n) i = Some (proj (Z.of_nat i)).
-  Proof.
-    intro H. unfold sts. rewrite nth_error_map. rewrite (nth_error_nth' _ 0%nat) by (rewrite seq_length; lia).
-    rewrite seq_nth by lia. reflexivity.
-  Qed.
-
-  (* ---------- the specification: sequential search over the enumeration 0 .. F ---------- *)
-  Section Spec.
-    Variable u : Q.
-    Fixpoint search (n i : nat) : option nat :=
-      match n with
-      | O => None
-      | Datatypes.S n' => if Qle_bool u (csum (Datatypes.S i)) then Some i else search n' (Datatypes.S i)
-      end.
-
-    Lemma search_first n : forall i j, (i <= j < i + n)%nat -> u <= csum (Datatypes.S j) ->
-      (forall t, (i <= t < j)%nat -> csum (Datatypes.S t) < u) -> search n i = Some j.
-    Proof.
-      induction n as [|n IH]; intros i j Hj Hu Hb; [lia|]. cbn [search].
-      destruct (Qle_bool u (csum (Datatypes.S i))) eqn:C.
-      - apply Qle_bool_iff in C. destruct (Nat.eq_dec i j) as [->|N]; [reflexivity|].
-        specialize (Hb i ltac:(lia)). lra.
-      - apply Qle_bool_false in C. destruct (Nat.eq_dec i j) as [->|N]; [lra|].
-        apply IH; [lia | assumption | intros t Ht; apply Hb; lia].
-    Qed.
-
-    Lemma search_skip n : forall i, (forall t, (i <= t < i + n)%nat -> csum (Datatypes.S t) < u) -> forall m, search (n + m) i = search m (i + n).
-    Proof.
-      induction n as [|n IH]; intros i H m; [rewrite Nat.add_0_r; reflexivity|].
-      change (Datatypes.S n + m)%nat with (Datatypes.S (n + m)). cbn [search].
-      destruct (Qle_bool u (csum (Datatypes.S i))) eqn:C.
-      - apply Qle_bool_iff in C. specialize (H i ltac:(lia)). lra.
-      - rewrite IH; [f_equal; lia | intros t Ht; apply H; lia].
-    Qed.
-
-    Definition spec_segs : list seg := map (fun t => (P t, Z.of_nat t)) (seq 0 (Datatypes.S Fn)).
-
-    Lemma locate_r_search n : forall i c, c == csum i ->
-      locate_r c (map (fun t => (P t, Z.of_nat t)) (seq i n)) u = option_map Z.of_nat (search n i).
-    Proof.
-      induction n as [|n IH]; intros i c E; cbn [seq map locate_r search option_map]; [reflexivity|].
-      assert (E2 : c + P i == csum (Datatypes.S i)) by (rewrite csum_S, E; reflexivity).
-      assert (Qle_bool u (c + P i) = Qle_bool u (csum (Datatypes.S i))) as ->.
-      { destruct (Qle_bool u (c + P i)) eqn:A; destruct (Qle_bool u (csum (Datatypes.S i))) eqn:B; try reflexivity.
-        - apply Qle_bool_iff in A. apply Qle_bool_false in B. lra.
-        - apply Qle_bool_iff in B. apply Qle_bool_false in A. lra. }
-      destruct (Qle_bool u (csum (Datatypes.S i))); [reflexivity | apply IH; exact E2].
-    Qed.
-
-    (* what the sequential search returns as an output of the sampler *)
-    Definition out_of (r : option nat) : @iout S :=
-      match r with Some j => Out (proj (Z.of_nat j)) | None => Frontier end.
-    Definition inv_spec : @iout S := out_of (search (Datatypes.S Fn) 0).
-  End Spec.
-
-  (* ---------- StatesManager.project_index_to_state_increment when every index is admissible ---------- *)
-  Lemma sm_search_here fuel x : (0 <= x)%Z -> (F + 2 - x <= Z.of_nat fuel)%Z ->
-    sm_search proj inside F fuel x = if (x <=? F)%Z then (Some (proj x), x) else (None, x).
-  Proof.
-    intros H0 Hf. destruct fuel as [|f]; simpl.
-    - assert ((x <=? F)%Z = false) as -> by (apply Z.leb_gt; lia). reflexivity.
-    - destruct (x <=? F)%Z eqn:L; [|reflexivity]. apply Z.leb_le in L. rewrite all_inside by lia. reflexivity.
-  Qed.
-
-  Lemma sm_project_here x lpi : (0 <= x)%Z -> ((if (x =? M)%Z then -1 else lpi) + 1 <= x)%Z ->
-    sm_project proj inside F M x lpi = if (x <=? F)%Z then (Some (proj x), x) else (None, x).
-  Proof.
-    intros H0 H. unfold sm_project. rewrite Z.max_l by lia. apply sm_search_here; lia.
-  Qed.
-
-  Lemma sm_search_beyond fuel x : (F < x)%Z -> sm_search proj inside F fuel x = (None, x).
-  Proof. intro H. destruct fuel; simpl; [reflexivity|]. assert ((x <=? F)%Z = false) as -> by (apply Z.leb_gt; lia). reflexivity. Qed.
-
-  Lemma sm_project_beyond x lpi : (F < x)%Z ->
-    exists lpi', sm_project proj inside F M x lpi = (None, lpi') /\ (F < lpi')%Z.
-  Proof.
-    intro H. unfold sm_project. eexists. split; [apply sm_search_beyond; lia | lia].
-  Qed.
-
-  (* ---------- invariant of the reachable states ---------- *)
-  Definition Inv (st : @ist S) : Prop :=
-    exists n, (1 <= n <= Datatypes.S Fn)%nat /\ (Z.of_nat n <= M)%Z /\ i_cum st = cums n /\ i_states st = sts n
-              /\ ((i_lpi st + 1 <= Z.of_nat n)%Z \/ Z.of_nat n = M \/ n = Datatypes.S Fn).
-
-  (* loop: stored prefix n; counter x; everything up to x has been summed into s = csum (x+1) *)
-  Lemma loop_correct u : forall fuel xn n st out,
-    (1 <= n <= Datatypes.S Fn)%nat -> (Z.of_nat n <= M)%Z -> i_cum st = cums n -> i_states st = sts n ->
-    (n = Datatypes.S xn \/ (Z.of_nat n = M /\ (n <= Datatypes.S xn)%nat)) -> (xn <= Fn)%nat ->
-    (((if (Z.of_nat xn + 1 =? M)%Z then -1 else i_lpi st) + 1 <= Z.of_nat xn + 1)%Z \/ xn = Fn) ->
-    (Fn + 2 - xn <= fuel)%nat ->
-    let r := inv_loop proj inside F prob M fuel u (csum (Datatypes.S xn)) (Z.of_nat xn) st out in
-    snd r = (if Qltb (csum (Datatypes.S xn)) u then out_of (search u (Fn - xn) (Datatypes.S xn)) else out)
-    /\ Inv (fst r).
-  Proof.
-    induction fuel as [|f IH]; intros xn n st out Hn HnM Hc Hs Hst Hx Hl Hf; [lia|].
-    cbn [inv_loop]. destruct (Qltb (csum (Datatypes.S xn)) u) eqn:C.
-    2:{ simpl. split; [reflexivity|]. exists n. repeat split; try assumption; try lia.
-        (* the invariant on lpi has to be re-established from the loop hypotheses *)
-        destruct Hst as [Hst|[Hst _]]; [|right; left; assumption].
-        destruct Hl as [Hl|Hl]; [|right; right; lia].
-        destruct (Z.of_nat xn + 1 =? M)%Z eqn:E; [apply Z.eqb_eq in E; right; left; lia | left; lia]. }
-    destruct (Nat.eq_dec xn Fn) as [EF|NF].
-    - (* the enumeration is exhausted: break_here *)
-      destruct (sm_project_beyond (Z.of_nat xn + 1) (i_lpi st) ltac:(unfold F; lia)) as (lpi' & E & Hl').
-      rewrite E. simpl. subst xn. rewrite Nat.sub_diag. simpl. split; [reflexivity|].
-      exists n. simpl. repeat split; try assumption; try lia.
-      all: try (destruct Hst as [Hst|[Hst _]]; [right; right; lia | right; left; assumption]).
-    - destruct Hl as [Hl|Hl]; [|contradiction].
-      rewrite (sm_project_here (Z.of_nat xn + 1) (i_lpi st) ltac:(lia) Hl).
-      assert ((Z.of_nat xn + 1 <=? F)%Z = true) as -> by (apply Z.leb_le; unfold F; lia).
-      replace (Z.of_nat xn + 1)%Z with (Z.of_nat (Datatypes.S xn)) by lia.
-      change (csum (Datatypes.S xn) + prob (proj (Z.of_nat (Datatypes.S xn)))) with (csum (Datatypes.S (Datatypes.S xn))).
-      replace (Fn - xn)%nat with (Datatypes.S (Fn - Datatypes.S xn)) by lia. cbn [search].
-      assert (Hq : forall (A : Type) (x y : A), (if Qle_bool u (csum (Datatypes.S (Datatypes.S xn))) then x else y)
-                   = (if Qltb (csum (Datatypes.S (Datatypes.S xn))) u then y else x)).
-      { intros A x y. unfold Qltb. destruct (Qle_bool u (csum (Datatypes.S (Datatypes.S xn)))); reflexivity. }
-      unfold zlen. rewrite Hc, cums_length.
-      destruct (Z.of_nat n <? M)%Z eqn:LM.
-      + (* still storing: n = xn + 1 and the new pair is appended *)
-        apply Z.ltb_lt in LM. destruct Hst as [Hst|[Hst _]]; [|lia].
-        match goal with |- context [inv_loop _ _ _ _ _ f u _ _ ?st' _] => set (st1 := st') end.
-        assert (A1 : (1 <= Datatypes.S n <= Datatypes.S Fn)%nat) by lia.
-        assert (A2 : (Z.of_nat (Datatypes.S n) <= M)%Z) by lia.
-        assert (A3 : i_cum st1 = cums (Datatypes.S n)) by (unfold st1; simpl; rewrite ?Hc, cums_S; subst n; reflexivity).
-        assert (A4 : i_states st1 = sts (Datatypes.S n)) by (unfold st1; simpl; rewrite ?Hs, sts_S; subst n; reflexivity).
-        assert (A5 : Datatypes.S n = Datatypes.S (Datatypes.S xn) \/ (Z.of_nat (Datatypes.S n) = M /\ (Datatypes.S n <= Datatypes.S (Datatypes.S xn))%nat)) by (left; lia).
-        assert (A6 : (Datatypes.S xn <= Fn)%nat) by lia.
-        assert (A7 : ((if (Z.of_nat (Datatypes.S xn) + 1 =? M)%Z then -1 else i_lpi st1) + 1 <= Z.of_nat (Datatypes.S xn) + 1)%Z \/ Datatypes.S xn = Fn).
-        { left. unfold st1. cbn [i_lpi]. destruct (Z.of_nat (Datatypes.S xn) + 1 =? M)%Z; lia. }
-        assert (A8 : (Fn + 2 - Datatypes.S xn <= f)%nat) by lia.
-        destruct (IH (Datatypes.S xn) (Datatypes.S n) st1 (Out (proj (Z.of_nat (Datatypes.S xn)))) A1 A2 A3 A4 A5 A6 A7 A8) as [R1 R2].
-        rewrite R1. split; [|exact R2]. rewrite Hq. destruct (Qltb (csum (Datatypes.S (Datatypes.S xn))) u); reflexivity.
-      + apply Z.ltb_ge in LM. assert (HM : Z.of_nat n = M) by lia.
-        match goal with |- context [inv_loop _ _ _ _ _ f u _ _ ?st' _] => set (st1 := st') end.
-        assert (A3 : i_cum st1 = cums n) by (unfold st1; simpl; rewrite ?Hc; reflexivity).
-        assert (A4 : i_states st1 = sts n) by (unfold st1; simpl; rewrite ?Hs; reflexivity).
-        assert (A5 : n = Datatypes.S (Datatypes.S xn) \/ (Z.of_nat n = M /\ (n <= Datatypes.S (Datatypes.S xn))%nat)).
-        { right. split; [assumption|]. destruct Hst as [Hst|[_ Hst]]; lia. }
-        assert (A6 : (Datatypes.S xn <= Fn)%nat) by lia.
-        assert (A7 : ((if (Z.of_nat (Datatypes.S xn) + 1 =? M)%Z then -1 else i_lpi st1) + 1 <= Z.of_nat (Datatypes.S xn) + 1)%Z \/ Datatypes.S xn = Fn).
-        { left. unfold st1. cbn [i_lpi]. destruct (Z.of_nat (Datatypes.S xn) + 1 =? M)%Z; lia. }
-        assert (A8 : (Fn + 2 - Datatypes.S xn <= f)%nat) by lia.
-        destruct (IH (Datatypes.S xn) n st1 (Out (proj (Z.of_nat (Datatypes.S xn)))) Hn HnM A3 A4 A5 A6 A7 A8) as [R1 R2].
-        rewrite R1. split; [|exact R2]. rewrite Hq. destruct (Qltb (csum (Datatypes.S (Datatypes.S xn))) u); reflexivity.
-  Qed.
-
-  Lemma cums_sorted n : forall i j, (i <= j < length (cums n))%nat -> nth i (cums n) 0 <= nth j (cums n) 0.
-  Proof.
-    intros i j H. rewrite cums_length in H. rewrite !cums_nth by lia. apply csum_mono. lia.
-  Qed.
-
-  Lemma step_correct st u : Inv st ->
-    snd (inv_step proj inside F prob M st u) = inv_spec u /\ Inv (fst (inv_step proj inside F prob M st u)).
-  Proof.
-    intros (n & Hn & HnM & Hc & Hs & Hl). unfold inv_step, inv_spec. rewrite Hc, cums_last by lia.
-    destruct (Qltb (csum n) u) eqn:C.
-    - unfold zlen. rewrite cums_length.
-      destruct n as [|xn]; [lia|]. replace (Z.of_nat (Datatypes.S xn) - 1)%Z with (Z.of_nat xn) by lia.
-      assert (A5 : Datatypes.S xn = Datatypes.S xn \/ (Z.of_nat (Datatypes.S xn) = M /\ (Datatypes.S xn <= Datatypes.S xn)%nat)) by (left; reflexivity).
-      assert (A6 : (xn <= Fn)%nat) by lia.
-      assert (A7 : ((if (Z.of_nat xn + 1 =? M)%Z then -1 else i_lpi st) + 1 <= Z.of_nat xn + 1)%Z \/ xn = Fn).
-      { destruct Hl as [Hl|[Hl|Hl]].
-        * left. destruct (Z.of_nat xn + 1 =? M)%Z; lia.
-        * left. assert ((Z.of_nat xn + 1 =? M)%Z = true) as -> by (apply Z.eqb_eq; lia). lia.
-        * right. lia. }
-      assert (A8 : (Fn + 2 - xn <= Z.to_nat (F + 3))%nat) by (unfold F; lia).
-      destruct (loop_correct u (Z.to_nat (F + 3)) xn (Datatypes.S xn) st NoOut Hn HnM Hc Hs A5 A6 A7 A8) as [R1 R2].
-      rewrite R1, C. split; [|exact R2]. f_equal.
-        apply Qltb_lt in C.
-        replace (Datatypes.S Fn) with (Datatypes.S xn + (Fn - xn))%nat by lia.
-        rewrite (search_skip u (Datatypes.S xn) 0).
-        * reflexivity.
-        * intros t Ht. assert (csum (Datatypes.S t) <= csum (Datatypes.S xn)) by (apply csum_mono; lia). lra.
-    - apply Qltb_false in C.
-      destruct (bisect_left_spec (cums n) u (cums_sorted n)) as (R1 & R2 & R3).
-      set (r := bisect_left (cums n) u) in *. rewrite cums_length in *.
-      assert (Hr : (r < n)%nat).
-      { destruct (Nat.eq_dec r n) as [E|E]; [|lia]. specialize (R2 (n - 1)%nat ltac:(lia)).
-        rewrite cums_nth in R2 by lia. replace (Datatypes.S (n - 1)) with n in R2 by lia. lra. }
-      rewrite Hs, (sts_nth_error n r Hr). cbn [fst snd]. split.
-      + unfold inv_spec. rewrite (search_first u (Datatypes.S Fn) 0 r); [reflexivity | lia | |].
-        * specialize (R3 r ltac:(lia)). rewrite cums_nth in R3 by lia. exact R3.
-        * intros t Ht. specialize (R2 t ltac:(lia)). rewrite cums_nth in R2 by lia. exact R2.
-      + exists n. repeat split; try assumption; try lia.
-  Qed.
-
-  Lemma init_inv st : inv_init proj inside F prob = Some st -> Inv st.
-  Proof.
-    unfold inv_init. rewrite sm_search_here by (unfold F; lia).
-    assert ((0 <=? F)%Z = true) as -> by (apply Z.leb_le; unfold F; lia).
-    intro E. inversion E; subst; clear E. exists 1%nat. cbn [i_cum i_states i_lpi]. repeat split; try lia.
-  Qed.
-
-  Theorem inversion_history_free st : reachable proj inside F prob M st -> forall u,
-    snd (inv_step proj inside F prob M st u) = inv_spec u.
-  Proof.
-    intros R u. assert (I : Inv st).
-    { induction R as [st E | st u0 R IH]; [apply init_inv; assumption | apply step_correct; assumption]. }
-    apply step_correct. assumption.
-  Qed.
-
-  (* the specification is a step function of u with right-closed consecutive intervals of lengths prob (proj i) *)
-  Lemma spec_is_locate u : inv_spec u = match locate_r 0 spec_segs u with
-                                        | Some i => Out (proj i) | None => Frontier end.
-  Proof.
-    unfold inv_spec, spec_segs. rewrite (locate_r_search u (Datatypes.S Fn) 0 0) by reflexivity.
-    destruct (search u (Datatypes.S Fn) 0); reflexivity.
-  Qed.
-
-  Lemma spec_len_seq k : forall n i, len_of (Z.of_nat k) (map (fun t => (P t, Z.of_nat t)) (seq i n))
-                                     == if ((i <=? k) && (k <? i + n))%nat then P k else 0.
-  Proof.
-    induction n as [|n IH]; intros i; simpl.
-    - destruct (i <=? k)%nat eqn:A; destruct (k <? i + 0)%nat eqn:B; simpl; try reflexivity.
-      apply Nat.leb_le in A. apply Nat.ltb_lt in B. lia.
-    - rewrite IH. destruct (Z.eqb_spec (Z.of_nat i) (Z.of_nat k)) as [E|E].
-      + apply Nat2Z.inj in E. subst i.
-        assert ((Datatypes.S k <=? k)%nat = false) as -> by (apply Nat.leb_gt; lia).
-        assert ((k <=? k)%nat = true) as -> by (apply Nat.leb_le; lia).
-        assert ((k <? k + Datatypes.S n)%nat = true) as -> by (apply Nat.ltb_lt; lia). simpl. ring.
-      + assert (i <> k) by (intro; subst; apply E; reflexivity).
-        destruct (i <=? k)%nat eqn:A; destruct (Datatypes.S i <=? k)%nat eqn:B;
-          destruct (k <? i + Datatypes.S n)%nat eqn:C; destruct (k <? Datatypes.S i + n)%nat eqn:D; simpl; try ring;
-          repeat match goal with
-                 | H : (_ <=? _)%nat = true |- _ => apply Nat.leb_le in H
-                 | H : (_ <=? _)%nat = false |- _ => apply Nat.leb_gt in H
-                 | H : (_ <? _)%nat = true |- _ => apply Nat.ltb_lt in H
-                 | H : (_ <? _)%nat = false |- _ => apply Nat.ltb_ge in H
-                 end; lia.
-  Qed.
-
-  Theorem inversion_law :
-    (forall k, (k <= Fn)%nat -> len_of (Z.of_nat k) spec_segs == prob (proj (Z.of_nat k)))
-    /\ seg_nonneg spec_segs
-    /\ (forall u k, 0 < u -> prob (proj (Z.of_nat k)) == 0 -> (k <= Fn)%nat -> locate_r 0 spec_segs u <> Some (Z.of_nat k)).
-  Proof.
-    assert (L : forall k, (k <= Fn)%nat -> len_of (Z.of_nat k) spec_segs == prob (proj (Z.of_nat k))).
-    { intros k Hk. unfold spec_segs. rewrite spec_len_seq.
-      assert ((0 <=? k)%nat = true) as -> by (apply Nat.leb_le; lia).
-      assert ((k <? 0 + Datatypes.S Fn)%nat = true) as -> by (apply Nat.ltb_lt; lia). reflexivity. }
-    assert (N : seg_nonneg spec_segs).
-    { unfold seg_nonneg, spec_segs. apply Forall_forall. intros s Hs. apply in_map_iff in Hs.
-      destruct Hs as (t & <- & _). simpl. apply prob_nonneg. }
-    split; [exact L|]. split; [exact N|].
-    intros u k Hu Hz Hk. apply locate_r_never_zero; [assumption | assumption |]. rewrite L by assumption. assumption.
-  Qed.
-
-  Theorem inversion_law_full :
-    (forall u, inv_spec u = match locate_r 0 spec_segs u with Some i => Out (proj i) | None => Frontier end)
-    /\ (forall k, (k <= Fn)%nat -> len_of (Z.of_nat k) spec_segs == prob (proj (Z.of_nat k)))
-    /\ seg_nonneg spec_segs
-    /\ (forall u k, 0 < u -> prob (proj (Z.of_nat k)) == 0 -> (k <= Fn)%nat -> locate_r 0 spec_segs u <> Some (Z.of_nat k)).
-  Proof. split; [exact spec_is_locate | exact inversion_law]. Qed.
-End InversionAllInside.
